@@ -1,4 +1,5 @@
 import GqlProofs.Json.RoundTrip
+import GqlProofs.Json.ParsedClean
 /-
   C19 — "Encoding any parsed executable document to JSON and decoding it back yields a document
   with the same operations, fragments and selections: fields stay fields, fragment spreads stay
@@ -16,12 +17,17 @@ import GqlProofs.Json.RoundTrip
   (executable; `↔ Utf8Clean d`, `C19_wellformed_decidable`): every string of the tree — operation
   types, names, aliases, variables, type names, type conditions, raw values, object-field names —
   is well-formed UTF-8.  The encoder needs nothing else (it is total on the tree type).
-  ASSUMED, NOT PROVED: that the parser model returns such a tree for every source text that is
-  valid UTF-8.  (Names are `[_A-Za-z0-9]+` tokens; the only strings that can be ill-formed are
-  quoted / block string values, which the lexer copies byte by byte, and it writes `\uXXXX`
-  escapes with `WriteRune`, which never emits ill-formed bytes.)  Check C19 tests the assumption on
-  every parsed document it runs (`json-wf-assumption-fails`).  For source text that is NOT valid
-  UTF-8 the property fails, in the Go code too (known finding `value-lost/invalid-utf8`,
+  PARSED DOCUMENTS.  PROVED (`C19_parsed_document_wellformed`, by an invariant of the parser model:
+  every byte string it puts into the tree is a token value or a constant): if every token the LEXER
+  model produces from the source has a well-formed UTF-8 value (`sourceCleanB inp`, executable, or
+  `LexClean`), then whatever `parseQuery` returns is well-formed, hence round-trips
+  (`C19_parsed_roundtrip`).  ASSUMED, NOT PROVED: that the lexer model's token values are
+  well-formed UTF-8 whenever the source text is valid UTF-8.  (Names and numbers are ASCII; quoted
+  and block strings and comments are copied byte by byte between ASCII delimiters, and `\uXXXX`
+  escapes are written with `WriteRune`, which never emits ill-formed bytes.)  Check C19 tests the
+  assumption on every source it parses (`sourceCleanB` and `utf8CleanB` must hold when the text is
+  valid UTF-8: `json-wf-assumption-fails`).  For source text that is NOT valid UTF-8 the property
+  fails, in the Go code too (known finding `value-lost/invalid-utf8`,
   `C19_roundtrip_illformed_utf8_counterexample`).
 
   THE IMAGE.  `stripDoc d` is `d` with every `Pos` field of the tree set to `Pos.zero` (positions are
@@ -97,6 +103,26 @@ theorem C19_roundtrip_kinds (d : QueryDoc) :
 theorem C19_roundtrip_selection (s : Selection) :
     decodeSelectionRepaired (encSelection s) = some (imgSel sanitize false s) := by
   simp [decodeSelectionRepaired, decSelItems_repaired_single]
+
+/- ---------------- documents produced by the parser model ---------------- -/
+
+/-- Every document the parser model returns for a source whose tokens (as the lexer model produces
+    them) all have well-formed UTF-8 values satisfies the well-formedness predicate. -/
+theorem C19_parsed_document_wellformed (limit : Nat) (inp : Bytes) (d : QueryDoc)
+    (hsrc : sourceCleanB inp = true) (hp : Parser.parseQuery limit inp = .ok d) : utf8CleanB d = true :=
+  Parser.parseQuery_clean limit inp d (Parser.sourceCleanB_sound inp hsrc) hp
+
+/-- the same with the hypothesis on the lexer as a proposition (all tokens ever read) -/
+theorem C19_parsed_document_wellformed_of_LexClean (limit : Nat) (inp : Bytes) (d : QueryDoc)
+    (hsrc : Parser.LexClean inp Lexer.Cur.init) (hp : Parser.parseQuery limit inp = .ok d) : utf8CleanB d = true :=
+  Parser.parseQuery_clean limit inp d hsrc hp
+
+/-- C19 for PARSED documents: parse (with or without token limit), encode, decode — the same
+    document comes back, positions aside. -/
+theorem C19_parsed_roundtrip (limit : Nat) (inp : Bytes) (d : QueryDoc)
+    (hsrc : sourceCleanB inp = true) (hp : Parser.parseQuery limit inp = .ok d) :
+    decodeQueryDoc (encodeQueryDoc d) = .ok (stripDoc d) :=
+  C19_roundtrip d (C19_parsed_document_wellformed limit inp d hsrc hp)
 
 /- ---------------- what the image keeps (it only zeroes positions) ---------------- -/
 
@@ -247,3 +273,8 @@ example : ∃ d', decodeQueryDoc (encodeQueryDoc c19Witness) = .ok d' ∧
 
 /-- depth 3 below the operation: the `b` inside `... on T` is found at path [2, 0] on both sides -/
 example : (docSelAt c19Witness (.op 0) 2 [0]).map kindOf = some SelKind.field := by decide
+
+
+/-- the source-level hypothesis is satisfiable (kernel-evaluated on a tiny source; check C19
+    evaluates `sourceCleanB` with the compiled driver on every source it parses) -/
+example : sourceCleanB (str "{a}") = true := by decide
